@@ -12,7 +12,7 @@ G == IF Tier = "quick" THEN 6 ELSE 8
 Span == 8
 
 Families ==
-  {"mat22", "mat23", "bounds", "kb", "unb", "thin", "odd"} \cup
+  {"mat22", "mat23", "bounds", "kb", "unb", "thin", "odd", "blout"} \cup
   (IF Tier = "quick" THEN {} ELSE {"mat33", "mat24", "kb3", "mat34"})
 
 SystemsOf(f) ==
@@ -24,6 +24,11 @@ SystemsOf(f) ==
     [] f = "bounds" -> UNION {SysBoundsOf(A) : A \in {A22, A23, A23b, A24, A33}}
     [] f = "kb" -> UNION {SysKBOf(A, Vec(Len(A[1]), 0), Vec(Len(A[1]), 4), KVariants(2)) \cup
                           SysKBOf(A, Vec(Len(A[1]), 2), Vec(Len(A[1]), 8), KVariants(2)) : A \in {A22, A23}}
+    \* a baseline whose chromaticity lies outside the cone of the sources' chromaticities (the dim corner of the gamut
+    \* is then a vertex of the chromatic gamut)
+    [] f = "blout" -> {Sys(A22, 4, Vec(2, 0), Vec(2, 4), "none", Identity(2), 1, "vector", <<6, 0>>),
+                       Sys(A22, 4, Vec(2, 0), Vec(2, 4), "none", Identity(2), 1, "vector", <<0, 9>>),
+                       Sys(A33, 4, Vec(3, 0), Vec(3, 4), "none", Identity(3), 1, "vector", <<8, 0, 0>>)}
     [] f = "kb3" -> SysKBOf(A33, Vec(3, 0), Vec(3, 4), KVariants(3)) \cup SysKBOf(A34, Vec(4, 0), Vec(4, 4), KVariants(3))
     [] f = "unb" -> UNION {SysUnbOf(A) : A \in {A22, A23, A33}} \cup
                     UNION {SysKBOf(A, Vec(Len(A[1]), 0), Vec(Len(A[1]), INF), KVariants(Len(A))) : A \in {A22, A23}} \cup
